@@ -261,7 +261,8 @@ pub fn expected_fields(v: &VariantSpec) -> Vec<String> {
         .iter()
         .enumerate()
         .map(|(i, f)| {
-            let dw = f.default_with || (i == 0 && v.kind == Kind::Tuple && v.default_with());
+            // a field-level attribute on a tuple field is read by no derive
+            let dw = (f.default_with && v.kind == Kind::Named) || (i == 0 && v.kind == Kind::Tuple && v.default_with());
             if dw {
                 f.ty.dw().expect("default_with on a type without dw value").1.to_string()
             } else {
